@@ -996,6 +996,14 @@ func checkFilterSelector(c *Ctx) {
 			}
 			continue
 		}
+		// every success path of a type must hand out the same program: a second program for some configurations of the type
+		// (a variant chosen when a field is set) is a different filter
+		if prev, seen := got[typ]; seen && prev != "error" && prev != norm(rp.Results[0]) {
+			if !strings.Contains(prev, norm(rp.Results[0])) {
+				got[typ] = prev + " | " + norm(rp.Results[0])
+			}
+			continue
+		}
 		got[typ] = norm(rp.Results[0])
 	}
 	if _, ok := got["0"]; !ok {
